@@ -199,6 +199,11 @@ func c08pipeline(k *mon.Case, tt int, info *gtab.Info) c08outcome {
 		return o
 	}
 	k.Input(o.enc)
+	if tt == otl.GPOS {
+		o.rep = otlwalk.WalkGPOS(o.enc)
+	} else {
+		o.rep = otlwalk.WalkGSUB(o.enc)
+	}
 	k.Step("Read")
 	var back *gtab.Info
 	pv, stack := mon.Try(func() { back, o.readErr = gtab.Read(bytes.NewReader(o.enc), gtab.Type(tt)) })
@@ -208,11 +213,6 @@ func c08pipeline(k *mon.Case, tt int, info *gtab.Info) c08outcome {
 	}
 	if o.readErr == nil {
 		o.diff = c08diff(info, back)
-	}
-	if tt == otl.GPOS {
-		o.rep = otlwalk.WalkGPOS(o.enc)
-	} else {
-		o.rep = otlwalk.WalkGSUB(o.enc)
 	}
 	return o
 }
